@@ -124,7 +124,12 @@ def verify_tpm(
                 f'Unique "{unique_hex}" was not same as public key [x,y] "{pub_key_xy_hex}" (TPM)'
             )
 
-        pub_area_crv = TPM_ECC_CURVE_COSE_CRV_MAP[pub_area.parameters.curve_id]
+        try:
+            pub_area_crv = TPM_ECC_CURVE_COSE_CRV_MAP[pub_area.parameters.curve_id]
+        except KeyError:
+            raise InvalidRegistrationResponse(
+                f'Unsupported PubArea curve ID "{pub_area.parameters.curve_id}" (TPM)'
+            )
         if pub_area_crv != decoded_public_key.crv:
             raise InvalidRegistrationResponse(
                 f'PubArea curve ID "{pub_area_crv}" was not same as public key crv "{decoded_public_key.crv}" (TPM)'
@@ -168,9 +173,16 @@ def verify_tpm(
     # [TPMv2-Part2] section 10.12.3, whose name field contains a valid Name for
     # pubArea, as computed using the algorithm in the nameAlg field of pubArea using
     # the procedure specified in [TPMv2-Part1] section 16.
+    try:
+        pub_area_name_alg = TPM_ALG_COSE_ALG_MAP[pub_area.name_alg]
+    except KeyError:
+        raise InvalidRegistrationResponse(
+            f'Unsupported PubArea name alg "{pub_area.name_alg}" (TPM)'
+        )
+
     pub_area_hash = hash_by_alg(
         attestation_statement.pub_area,
-        TPM_ALG_COSE_ALG_MAP[pub_area.name_alg],
+        pub_area_name_alg,
     )
 
     # A Name is the nameAlg identifier followed by the digest: the identifier carried by the
